@@ -102,6 +102,33 @@ pub fn run(case: &Sx) -> Sx {
             ));
             m.characteristic.push(ch);
         }
+        5 | 6 => {
+            // a standard axis that is not the first axis: MAP with X = FIX_AXIS, Y = STD_AXIS (5);
+            // CUBOID with X = FIX_AXIS, Y = STD_AXIS within its limits, Z = STD_AXIS (6).  The record layout gives the
+            // other axes a different data type, so the decision shows which AXIS_PTS_<dim> entry is consulted.
+            blockname = "AXIS_DESCR";
+            let other = if c[1].as_int() >= 8 { DataType::Ubyte } else { DataType::Float64Ieee };
+            rl.fnc_values = Some(FncValues::new(1, DataType::Float64Ieee, IndexMode::RowDir, AddrType::Direct));
+            rl.axis_pts_x = Some(AxisPtsDim::new(2, other, IndexOrder::IndexIncr, AddrType::Direct));
+            let ctype = if okind == 5 { CharacteristicType::Map } else { CharacteristicType::Cuboid };
+            let mut ch = Characteristic::new(s("obj"), s(""), ctype, 0, s("rl"), 0.0, s("NO_COMPU_METHOD"), 0.0, 0.0);
+            let mut fix = AxisDescr::new(AxisDescrAttribute::FixAxis, s("NO_INPUT_QUANTITY"), s("NO_COMPU_METHOD"), 2, 0.0, 1.0);
+            fix.fix_axis_par_dist = Some(FixAxisParDist::new(0, 1, 2));
+            ch.axis_descr.push(fix);
+            if okind == 5 {
+                rl.axis_pts_y = Some(AxisPtsDim::new(3, dtype, IndexOrder::IndexIncr, AddrType::Direct));
+            } else {
+                rl.axis_pts_y = Some(AxisPtsDim::new(3, DataType::Ubyte, IndexOrder::IndexIncr, AddrType::Direct));
+                rl.axis_pts_z = Some(AxisPtsDim::new(4, dtype, IndexOrder::IndexIncr, AddrType::Direct));
+                ch.axis_descr.push(AxisDescr::new(
+                    AxisDescrAttribute::StdAxis, s("NO_INPUT_QUANTITY"), s("NO_COMPU_METHOD"), 2, 0.0, 255.0,
+                ));
+            }
+            ch.axis_descr.push(AxisDescr::new(
+                AxisDescrAttribute::StdAxis, s("NO_INPUT_QUANTITY"), conv, 2, lo, hi,
+            ));
+            m.characteristic.push(ch);
+        }
         _ => {
             blockname = "TYPEDEF_MEASUREMENT";
             m.typedef_measurement.push(TypedefMeasurement::new(s("obj"), s(""), dtype, conv, 0, 0.0, lo, hi));
